@@ -27,6 +27,11 @@ def tokens(sql, dialect):
     if c.isspace():
       i += 1
       continue
+    if sql.startswith('/*', i):
+      j = sql.find('*/', i + 2)
+      if j >= 0:            # a closed block comment (the compiler's `/* nil */` marker) is white space
+        i = j + 2
+        continue
     if sql.startswith('--', i) or sql.startswith('/*', i) or c == '#':
       out.append(('comment', sql[i:i + 2], i))
       j = sql.find('\n', i)
